@@ -132,4 +132,25 @@ def runActs (s : Sys) : List Act → Option Sys
     | none => none
     | some s' => runActs s' as
 
+/-! ### with the retry policy made explicit -/
+
+/-- the system with the retry policy made explicit: `left i` is the number of attempts unit `i` may still fail into a retry
+    (`run_test_instance`'s loop over the backoff iterator: `retries` at the start, one less after each failed attempt that is
+    retried).  Every run of `bstep` is a run of `step`. -/
+structure BSys where
+  s : Sys
+  left : Nat → Nat
+
+def bstep (b : BSys) (a : Act) : Option BSys :=
+  match a with
+  | .exitRetry i r sl =>
+    if 0 < b.left i then (step b.s (.exitRetry i r sl)).map (fun s' => ⟨s', fun j => if j = i then b.left i - 1 else b.left j⟩) else none
+  | a => (step b.s a).map (fun s' => ⟨s', b.left⟩)
+
+def brunActs (b : BSys) : List Act → Option BSys
+  | [] => some b
+  | a :: as => match bstep b a with
+    | none => none
+    | some b' => brunActs b' as
+
 end NextestModel.System
